@@ -19,40 +19,44 @@ Open Scope Z_scope.
 (* ---------------------------------------------------------------------------------------------- *)
 (* The tie to the source.  tools/py2v/gen_client_walks.py re-reads client.py on every run (fail closed):
    which of the two known computations of a child's destination Client.upload uses
-   (upload_relative_fixed: false = as found, finding F1; true = docs/fixes/C09-upload-destination.diff),
-   and that the rest of the path plumbing of upload/download is what the model transcribes. *)
+   (upload_relative_fixed: true = `relative = destination / path.relative_to(source)`, the code since
+   "fix: Client.upload places a directory's children under the destination"; false = the two-armed form
+   before that fix, former finding F1; anything else is unclassified), and that the rest of the path
+   plumbing of upload/download is what the model transcribes. *)
 Definition repo_upload_fixed : bool := Gen.ClientWalks.upload_relative_fixed.
 (* the model of Client.upload as /repo has it NOW (this is what the harness runs against the real client) *)
 Definition repo_upload := upload_gen repo_upload_fixed.
 
+(* false (this file stops compiling) as soon as the source reverts to the old form or changes the plumbing *)
 Lemma C09_source_obligations :
   Gen.ClientWalks.translator_ok
+  && Gen.ClientWalks.upload_relative_fixed
   && Gen.ClientWalks.upload_final_destination_ok && Gen.ClientWalks.upload_children_use_relative
   && Gen.ClientWalks.download_final_destination_ok && Gen.ClientWalks.download_child_ok = true.
 Proof. vm_compute. reflexivity. Qed.
 
 (* ---------------------------------------------------------------------------------------------- *)
-(* F1: the code as found (upload = upload_gen false) misplaces the children of an uploaded directory.
-   upload("foo","x") of foo={a} into an empty server: /x/foo stays empty, a lands in /foo;
-   upload("foo","x/y",write_into=True): /x/y stays empty, a lands in /y. *)
-Theorem C09_upload_dir_refuted :
-  (exists cwd fs nm src dst wi r,
-      upload cwd fs nm src dst wi = Ok r /\
-      r <> graft fs (resolve cwd (final_destination nm dst wi)) src /\
-      look r (resolve cwd (final_destination nm dst wi) ++ [n_a]) = None /\
-      look r [n_foo; n_a] = Some (EFile [1]) /\ dst = mkp false [n_x] /\ wi = false)
-  /\
-  (exists cwd fs nm src dst wi r,
-      upload cwd fs nm src dst wi = Ok r /\
-      r <> graft fs (resolve cwd (final_destination nm dst wi)) src /\
-      look r (resolve cwd (final_destination nm dst wi) ++ [n_a]) = None /\
-      look r [n_y; n_a] = Some (EFile [1]) /\ dst = mkp false [n_x; n_y] /\ wi = true).
-Proof. exact upload_dir_refuted. Qed.
-Print Assumptions C09_upload_dir_refuted.
+(* Upload of a directory, the full statement, about the code /repo has now (repo_upload; it converts to
+   Model.upload = upload_gen true exactly when the source has the repaired form):
+   every tree (empty directories, empty files, equal names on different levels), every destination
+   (empty, one or several components, absolute), both write_into, every cwd (an existing directory),
+   every remote state without file/directory conflict: the upload succeeds (in particular it does not
+   run out of fuel) and the remote file system is graft fs A src — below A the source, the prefixes of
+   A directories, and nothing else changed. *)
+Theorem C09_upload_spec : forall cwd fs nm ch dst wi chc,
+  let A := resolve cwd (final_destination nm dst wi) in
+  lookup fs cwd = Some (Dir chc) ->
+  wf_tree (Dir ch) ->
+  compat fs A (Dir ch) ->
+  exists fs', repo_upload cwd fs nm (Dir ch) dst wi = Ok fs' /\
+              (forall q, look fs' q = look (graft fs A (Dir ch)) q) /\
+              (forall q, look fs' q = placed fs A (Dir ch) q).
+Proof. exact upload_spec. Qed.
+Print Assumptions C09_upload_spec.
 
-(* What either version does, for EVERY input: the directory is made at the destination A, and each
-   node of the source is placed (one mkdir -p / one mkdir -p + STOR per node, breadth first) below
-   A' = the anchor: A itself after the fix, cwd/<last component of the destination> as found. *)
+(* How it gets there, for EVERY input and either form of the code: the directory is made at the
+   destination A, then one mkdir -p / one mkdir -p + STOR per node, breadth first, below the anchor
+   A' (= A for the code now). *)
 Theorem C09_upload_dir_actual : forall fixed cwd fs nm ch dst wi chc,
   let dst' := final_destination nm dst wi in
   let A := resolve cwd dst' in
@@ -65,9 +69,15 @@ Theorem C09_upload_dir_actual : forall fixed cwd fs nm ch dst wi chc,
 Proof. exact upload_gen_dir_actual. Qed.
 Print Assumptions C09_upload_dir_actual.
 
-(* The same, path by path, for EVERY input with at least one child and both versions: the directory is
-   made (empty) at the destination A, the tree is laid out below the anchor A', nothing else changes. *)
-Theorem C09_upload_dir_view : forall fixed cwd fs nm ch dst wi chc,
+(* ---------------------------------------------------------------------------------------------- *)
+(* HISTORICAL — statements about upload_old = upload_gen false, the code BEFORE the fix of F1.  They say
+   nothing about /repo as it is; they are kept because they characterise exactly what a revert of the
+   fix would do (the translator then computes upload_relative_fixed = false, C09_source_obligations and
+   C09_upload_spec stop compiling, and the harness reports the inputs below as violations). *)
+
+(* path by path, for every input with at least one child and either form: the directory is made (empty)
+   at A, the tree is laid out below the anchor A', nothing else changes *)
+Theorem C09_hist_upload_dir_view : forall fixed cwd fs nm ch dst wi chc,
   let dst' := final_destination nm dst wi in
   let A := resolve cwd dst' in
   let A' := resolve cwd (upload_anchor fixed wi dst' nm) in
@@ -79,13 +89,11 @@ Theorem C09_upload_dir_view : forall fixed cwd fs nm ch dst wi chc,
   exists fs', upload_gen fixed cwd fs nm (Dir ch) dst wi = Ok fs' /\
               forall q, look fs' q = placed (ensure_dir fs A) A' (Dir ch) q.
 Proof. exact upload_gen_dir_view. Qed.
-Print Assumptions C09_upload_dir_view.
+Print Assumptions C09_hist_upload_dir_view.
 
-(* F1 universally (not only the two witnesses): with the code as found every child n of the source is
-   missing from the documented place A/n and sits at A'/n = cwd/<last component>/n instead, whenever A/n
-   was free before and is neither on the way to nor below the anchor (which excludes only contrived
-   coincidences such as upload("foo","foo") of a tree that itself contains foo/n). *)
-Theorem C09_upload_dir_child_misplaced : forall cwd fs nm ch dst wi chc n t,
+(* the old code put every child n of the source at cwd/<last component>/n and left A/n empty, whenever
+   A/n was free before and is neither on the way to nor below that anchor *)
+Theorem C09_hist_old_upload_child_misplaced : forall cwd fs nm ch dst wi chc n t,
   let dst' := final_destination nm dst wi in
   let A := resolve cwd dst' in
   let A' := resolve cwd (bug_anchor wi dst' nm) in
@@ -97,14 +105,14 @@ Theorem C09_upload_dir_child_misplaced : forall cwd fs nm ch dst wi chc n t,
   look fs (A ++ [n]) = None ->
   is_prefix A' (A ++ [n]) = false ->
   is_prefix (A ++ [n]) A' = false ->
-  exists fs', upload cwd fs nm (Dir ch) dst wi = Ok fs' /\
+  exists fs', upload_old cwd fs nm (Dir ch) dst wi = Ok fs' /\
               look fs' (A ++ [n]) = None /\
               placed fs A (Dir ch) (A ++ [n]) = Some (entry_of t) /\
               look fs' (A' ++ [n]) = Some (entry_of t).
-Proof. exact upload_dir_child_misplaced. Qed.
-Print Assumptions C09_upload_dir_child_misplaced.
+Proof. exact upload_old_child_misplaced. Qed.
+Print Assumptions C09_hist_old_upload_child_misplaced.
 
-Example C09_child_misplaced_satisfiable :
+Example C09_hist_old_upload_child_misplaced_satisfiable :
   let fs := Dir [] in
   let ch := [(n_a, File [1])] in
   let dst' := final_destination n_foo (mkp false [n_x]) false in
@@ -118,87 +126,10 @@ Example C09_child_misplaced_satisfiable :
   look fs (A ++ [n_a]) = None /\
   is_prefix A' (A ++ [n_a]) = false /\
   is_prefix (A ++ [n_a]) A' = false.
-Proof. exact child_misplaced_satisfiable. Qed.
+Proof. exact upload_old_child_misplaced_satisfiable. Qed.
 
-(* The statement about the code /repo has NOW (repo_upload, the form read from the source).
-   Every tree (empty directories, empty files, equal names on different levels), every destination
-   (empty, one or several components, absolute), both write_into, every cwd: the upload succeeds
-   (in particular it does not run out of fuel) and the remote file system is graft fs A src — below A
-   the source, the prefixes of A directories, and nothing else changed — PROVIDED the anchor of the
-   children is the destination.  With repo_upload_fixed = true (after the fix) that hypothesis reads
-   A = A (C09_upload_anchor_fixed) and this is the full statement of the property; with
-   repo_upload_fixed = false it is the carved part of C09_upload_dir_partial_domain. *)
-Theorem C09_upload_dir_spec_repo : forall cwd fs nm ch dst wi chc,
-  let dst' := final_destination nm dst wi in
-  let A := resolve cwd dst' in
-  resolve cwd (upload_anchor repo_upload_fixed wi dst' nm) = A ->
-  lookup fs cwd = Some (Dir chc) ->
-  wf_tree (Dir ch) ->
-  compat fs A (Dir ch) ->
-  exists fs', repo_upload cwd fs nm (Dir ch) dst wi = Ok fs' /\
-              (forall q, look fs' q = look (graft fs A (Dir ch)) q) /\
-              (forall q, look fs' q = placed fs A (Dir ch) q).
-Proof. exact (upload_gen_dir_spec_full repo_upload_fixed). Qed.
-Print Assumptions C09_upload_dir_spec_repo.
-
-Theorem C09_upload_anchor_fixed : forall wi dst' nm, upload_anchor true wi dst' nm = dst'.
-Proof. exact upload_anchor_fixed. Qed.
-Print Assumptions C09_upload_anchor_fixed.
-
-(* The full statement, for the code after docs/fixes/C09-upload-destination.diff (upload_fixed =
-   upload_gen true): no anchor hypothesis. *)
-Theorem C09_upload_spec_fixed : forall cwd fs nm ch dst wi chc,
-  let A := resolve cwd (final_destination nm dst wi) in
-  lookup fs cwd = Some (Dir chc) ->
-  wf_tree (Dir ch) ->
-  compat fs A (Dir ch) ->
-  exists fs', upload_fixed cwd fs nm (Dir ch) dst wi = Ok fs' /\
-              (forall q, look fs' q = look (graft fs A (Dir ch)) q) /\
-              (forall q, look fs' q = placed fs A (Dir ch) q).
-Proof. exact upload_spec_fixed_full. Qed.
-Print Assumptions C09_upload_spec_fixed.
-
-(* ONCE THE FIX IS IN /repo (Gen.ClientWalks.upload_relative_fixed = true) the following closes as it
-   stands (repo_upload then converts to upload_fixed); until then it does not typecheck, which is finding F1:
-
-Theorem C09_upload_spec : forall cwd fs nm ch dst wi chc,
-  let A := resolve cwd (final_destination nm dst wi) in
-  lookup fs cwd = Some (Dir chc) ->
-  wf_tree (Dir ch) ->
-  compat fs A (Dir ch) ->
-  exists fs', repo_upload cwd fs nm (Dir ch) dst wi = Ok fs' /\
-              (forall q, look fs' q = look (graft fs A (Dir ch)) q) /\
-              (forall q, look fs' q = placed fs A (Dir ch) q).
-Proof. exact upload_spec_fixed_full. Qed.
-Print Assumptions C09_upload_spec.
-*)
-
-(* The code as found meets the same statement exactly when the anchor of the children coincides with
-   the destination ... *)
-Theorem C09_upload_dir_spec_partial : forall cwd fs nm ch dst wi chc,
-  let dst' := final_destination nm dst wi in
-  let A := resolve cwd dst' in
-  resolve cwd (bug_anchor wi dst' nm) = A ->
-  lookup fs cwd = Some (Dir chc) ->
-  wf_tree (Dir ch) ->
-  compat fs A (Dir ch) ->
-  exists fs', upload cwd fs nm (Dir ch) dst wi = Ok fs' /\
-              (forall q, look fs' q = look (graft fs A (Dir ch)) q) /\
-              (forall q, look fs' q = placed fs A (Dir ch) q).
-Proof. exact upload_dir_spec_partial_full. Qed.
-Print Assumptions C09_upload_dir_spec_partial.
-
-(* ... which holds for: write_into with a relative destination of at most one component; no
-   write_into with the empty destination (the only shapes the test-suite exercises). *)
-Theorem C09_upload_dir_partial_domain : forall cwd nm dst wi,
-  (wi = true /\ p_abs dst = false /\ (p_parts dst = [] \/ exists n, n <> [] /\ p_parts dst = [n])) \/
-  (wi = false /\ dst = mkp false []) ->
-  resolve cwd (bug_anchor wi (final_destination nm dst wi) nm)
-  = resolve cwd (final_destination nm dst wi).
-Proof. exact bug_anchor_ok. Qed.
-Print Assumptions C09_upload_dir_partial_domain.
-
-(* A single file: any destination that has a name, both write_into, both versions of the code. *)
+(* ---------------------------------------------------------------------------------------------- *)
+(* A single file: any destination that has a name, both write_into (either form of the code). *)
 Theorem C09_upload_file_spec : forall fixed cwd fs nm c dst wi chc,
   let dst' := final_destination nm dst wi in
   let A := resolve cwd dst' in
@@ -269,18 +200,15 @@ Proof. exact fuel_enough. Qed.
 Print Assumptions C09_fuel_enough.
 
 (* ---------------------------------------------------------------------------------------------- *)
-(* non-vacuity: the hypotheses are satisfiable on a non-trivial state (a fresh destination x/y under
-   cwd /w, a source with an empty directory, an empty file and equal names on two levels); the anchor
-   hypothesis of C09_upload_dir_spec_repo is satisfiable for either form of the code (destination x,
-   write_into) *)
+(* non-vacuity: the hypotheses of C09_upload_spec are satisfiable on a non-trivial state (a fresh
+   destination x/y under cwd /w, a source with an empty directory, an empty file and equal names on two
+   levels), and there the code /repo has now produces exactly the grafted tree *)
 Example C09_hypotheses_satisfiable :
   let fs := Dir [([119], Dir [([111], File [1])])] in
   let src := [(n_a, Dir [(n_a, File []); (n_x, Dir [])]); (n_x, File [7])] in
   lookup fs [[119]] = Some (Dir [([111], File [1])]) /\
   wf_tree (Dir src) /\
   compat fs (resolve [[119]] (final_destination n_foo (mkp false [n_x; n_y]) false)) (Dir src) /\
-  upload_fixed [[119]] fs n_foo (Dir src) (mkp false [n_x; n_y]) false
-  = Ok (graft fs [[119]; n_x; n_y; n_foo] (Dir src)) /\
-  (forall fixed, resolve [[119]] (upload_anchor fixed true (final_destination n_foo (mkp false [n_x]) true) n_foo)
-                 = resolve [[119]] (final_destination n_foo (mkp false [n_x]) true)).
+  repo_upload [[119]] fs n_foo (Dir src) (mkp false [n_x; n_y]) false
+  = Ok (graft fs [[119]; n_x; n_y; n_foo] (Dir src)).
 Proof. exact hypotheses_satisfiable. Qed.
